@@ -111,15 +111,23 @@ def run(prog, rep, tier='quick'):
     from ..interp_expr import amap_reduce
     n_dm = 0
     for method, users in (('covariance', 'covar.arcovar'), ('modified', 'modcovar.modcovar')):
-        for cplx in (False, True):
+        for cplx, c64 in ((False, False), (True, False), (True, True)):
             x = C.data(cplx, phase=False)
+            x.c64 = c64           # complex data in single precision: complex data all the same
             x.seg = S.identity('X', x.shape[0])
             Pv = C.symint('P', 3, 'order')
             v, itp = C.run_function(prog, 'linalg', 'corrmtx', [x, Pv], {'method': Const(method)})
-            ctx = '%s,%s' % (method, 'complex' if cplx else 'real')
+            ctx = '%s,%s' % (method, ('complex64' if c64 else 'complex') if cplx else 'real')
             n_dm += 1
             cw = loc(cm.mod, cm.node)
             if blocked(rep, 'data-matrix', cm.qname, ctx, itp):
+                continue
+            lost = [c_ for c_ in itp.conflicts if c_.comp == 'dtype']
+            if lost or (cplx and isinstance(v, Num) and v.cplx is False):
+                c_ = lost[0] if lost else None
+                rep.violation('data-matrix', cm.qname, ctx + ' dtype', 'the data matrix of complex data is held in a real buffer%s: the '
+                              'imaginary part of every sample is discarded, the fit is that of the real part'
+                              % ((' (`%s`)' % c_.construct) if c_ else ''), loc(c_.mod, c_.node) if c_ else cw)
                 continue
             A = tonum(v) if v is not None else None
             if A is None or A.amap is None:
@@ -145,7 +153,7 @@ def run(prog, rep, tier='quick'):
                 rep.violation('data-matrix', cm.qname, ctx, 'the %s data matrix holds %s (rows from, to, d/di, d/dk, offset[, conj]); '
                               'required %s: the least-squares problem solved is not the %s prediction-error problem'
                               % (method, sorted(got), sorted(want), 'forward' if method == 'covariance' else 'forward-backward'), cw)
-    rep.floor('data-matrix contexts', n_dm, 4)
+    rep.floor('data-matrix contexts', n_dm, 6)
     # ---------------- conjugate placement (modulation charges of the data matrix, the solution and the error; 2-D charges)
     from ..d4rules import run_d4, report_q, check_q
     from .. import charge as Q
